@@ -1,7 +1,8 @@
 /-
   C01 — Validate decides exactly the validity relation of the Spec (draft 2020-12 and draft-07 are
   both covered: the draft is a field of the environment).  Property theorems only; the proofs are in
-  JSV/Proofs/Refine*.lean.
+  JSV/Proofs/Refine*.lean.  Section "algebraic laws": what the validity relation — and, through the refinement, the
+  evaluator — satisfies for every schema and instance (helper lemmas: JSV/Proofs/SpecLaws*.lean).
 -/
 import JSV.Proofs.Refine
 import JSV.Proofs.RefineMono
@@ -1157,6 +1158,16 @@ theorem ref_is_target_go (r : String) (t : NodeId) (hd : env.draft = .d2020) (hn
       show (env.info? s).bind (·.resolvedRef) = some t
       rw [hi]; exact ht)) hdef
 
+/-- the definedness hypothesis of the evaluator corollaries discharged for guarded schemas (`spec_defined`): with fuel
+    `(depth j + 1) * (maxRank env + 1)` for the subschema, `allOf [t]` returns the verdict of `t` — no mention of the Spec -/
+theorem allOf_singleton_go_guarded (hr : ranked env = true) (hc : closed env = true) (t : NodeId)
+    (hn : env.st.get? s = some n) (hk : Laws.keywords n = { allOf := some [t] }) (ht : t < env.st.size)
+    (hf : (Json.depth j + 1) * (maxRank env + 1) ≤ fuel) :
+    (Go.validateFuel env (fuel + 1) stack (GoVal.ofJson j) s).verdict
+      = (Go.validateFuel env fuel (stack ++ [s]) (GoVal.ofJson j) t).verdict :=
+  (allOf_singleton_go env hwf hst fuel stack hstack s n j hj t hn hk
+    (spec_defined env hr hc fuel (stack ++ [s]) t j ht hf)).1
+
 end laws_go
 
 /-! ### the laws instantiated
@@ -1202,7 +1213,8 @@ def lawStore : Store := #[
   /- 34 -/ { items := some 1 },
   /- 35 -/ { properties := some [("a", 0)], unevaluatedProperties := some 1 },
   /- 36 -/ { unevaluatedProperties := some 1 },
-  /- 37 -/ { ref := "#/$defs/s", defs := some [("s", 2)] } ]
+  /- 37 -/ { ref := "#/$defs/s", defs := some [("s", 2)] },
+  /- 38 -/ { oneOf := some [3, 2] } ]
 
 def lawEnv : VEnv :=
   { st := lawStore, draft := .d2020,
@@ -1408,5 +1420,117 @@ example : (Go.validateFuel lawEnv 3 [] (GoVal.ofJson lawBad) 37).verdict
   (ref_is_target_go lawEnv lawEnv_wf lawEnv_store 2 [] (fun _ h => nomatch h) 37 _ lawBad (by decide) "#/$defs/s" 2 rfl rfl
     rfl (by decide) _ rfl rfl (by decide)).1
 example : (Go.validateFuel lawEnv 3 [] (GoVal.ofJson lawBad) 37).verdict = some false := by decide
+
+/-- `allOf_singleton_go_guarded`: `lawEnv` is ranked and closed; fuel `(1 + 1) * (maxRank + 1)` for node 2 -/
+example : ranked lawEnv = true ∧ closed lawEnv = true := by decide
+example : (Go.validateFuel lawEnv ((1 + 1) * (maxRank lawEnv + 1) + 1) [] (GoVal.ofJson lawGood) 4).verdict
+    = (Go.validateFuel lawEnv ((1 + 1) * (maxRank lawEnv + 1)) [4] (GoVal.ofJson lawGood) 2).verdict :=
+  allOf_singleton_go_guarded lawEnv lawEnv_wf lawEnv_store _ [] (fun _ h => nomatch h) 4 _ lawGood (by decide) (by decide)
+    (by decide) 2 rfl rfl (by decide) (by decide)
+
+/-! ### the remaining laws instantiated -/
+
+example : (Spec.evalFuel (specEnvOf lawEnv) 4 [] 10 lawBad).map (·.isSome)
+    = (Spec.evalFuel (specEnvOf lawEnv) 2 [10, 11] 2 lawBad).map (·.isSome) :=
+  not_not_verdict _ 2 [] 10 _ lawBad 11 _ 2 rfl rfl rfl rfl
+example : ∃ a, Go.validateFuel lawEnv 1 [] (GoVal.ofJson lawBad) 0 = .ok a ∧
+    (∀ k, k ∈ keysOf lawBad → γprop a k = false) ∧ (∀ i, i < lenOf lawBad → γitem a i = false) :=
+  true_accepts_go lawEnv lawEnv_wf lawEnv_store 0 [] (fun _ h => nomatch h) 0 _ lawBad (by decide) rfl rfl
+example : (Go.validateFuel lawEnv 1 [] (GoVal.ofJson lawBad) 7).verdict = some true :=
+  allOf_empty_go lawEnv lawEnv_wf lawEnv_store 0 [] (fun _ h => nomatch h) 7 _ lawBad (by decide) rfl rfl
+example : (Go.validateFuel lawEnv 1 [] (GoVal.ofJson lawGood) 9).verdict = some false :=
+  oneOf_empty_go lawEnv lawEnv_wf lawEnv_store 0 [] (fun _ h => nomatch h) 9 _ lawGood (by decide) rfl rfl
+
+/-- 4: the evaluated sets under the rewritten `anyOf` of node 13 are the same sets; `allOf [13]` of node 22 doubled;
+    `oneOf [2, 2]` of node 12 is its own permutation -/
+example (e e' : Spec.Ev) (h1 : Spec.evalFuel (specEnvOf lawEnv) 5 [] 22 lawGood = some (some e))
+    (h2 : Spec.evalFuel { specEnvOf lawEnv with st := (lawStore.setIfInBounds 13
+      { anyOf := some [3, 2, 3], minProperties := some 1 }) } 5 [] 22 lawGood = some (some e')) :
+    (∀ k, k ∈ e.props ↔ k ∈ e'.props) ∧ (∀ i, i ∈ e.items ↔ i ∈ e'.items) :=
+  anyOf_set_invariant_evaluated (specEnvOf lawEnv) 5 [] 13 _ lawGood lawEnv_store [2, 3] [3, 2, 3] rfl rfl
+    (by intro t; simp only [List.mem_cons, List.mem_nil_iff, or_false]; grind) 22 (by decide) e e' h1 h2
+example : (Spec.evalFuel { specEnvOf lawEnv with st := (lawStore.setIfInBounds 22
+      { allOf := some [13, 13], unevaluatedProperties := some 1 }) } 5 [] 22 lawGood).map (·.isSome)
+    = (Spec.evalFuel (specEnvOf lawEnv) 5 [] 22 lawGood).map (·.isSome) :=
+  allOf_set_invariant (specEnvOf lawEnv) 5 [] 22 _ lawGood lawEnv_store [13] [13, 13] rfl rfl
+    (by intro t; simp only [List.mem_cons, List.mem_nil_iff, or_false]; grind) 22 (by decide)
+example : (Go.validateFuel { lawEnv with st := (lawStore.setIfInBounds 22
+      { allOf := some [13, 13], unevaluatedProperties := some 1 }) } 5 [] (GoVal.ofJson lawGood) 22).verdict
+    = (Go.validateFuel lawEnv 5 [] (GoVal.ofJson lawGood) 22).verdict :=
+  allOf_set_invariant_go lawEnv lawEnv_wf lawEnv_store 5 [] (fun _ h => nomatch h) 22 _ lawGood (by decide) [13] [13, 13]
+    rfl rfl (by intro t; simp only [List.mem_cons, List.mem_nil_iff, or_false]; grind) 22 (by decide)
+/-- node 38 is `{"oneOf": [{"type": "string"}, s]}`, reversed -/
+example : (Spec.evalFuel { specEnvOf lawEnv with st := (lawStore.setIfInBounds 38 { oneOf := some [2, 3] }) } 4 [] 38
+      lawGood).map (·.isSome) = (Spec.evalFuel (specEnvOf lawEnv) 4 [] 38 lawGood).map (·.isSome) :=
+  oneOf_perm_invariant (specEnvOf lawEnv) 4 [] 38 _ lawGood lawEnv_store [3, 2] [2, 3] rfl rfl
+    (List.Perm.swap 2 3 []) 38 (by decide)
+example : (Go.validateFuel { lawEnv with st := lawStore.setIfInBounds 38 { oneOf := some [2, 3] } } 4 []
+      (GoVal.ofJson lawGood) 38).verdict = (Go.validateFuel lawEnv 4 [] (GoVal.ofJson lawGood) 38).verdict :=
+  oneOf_perm_invariant_go lawEnv lawEnv_wf lawEnv_store 4 [] (fun _ h => nomatch h) 38 _ lawGood (by decide) [3, 2] [2, 3]
+    rfl rfl (List.Perm.swap 2 3 []) 38 (by decide)
+
+/-- 5 -/
+example : Spec.evalFuel (specEnvOf lawEnv) 3 [] 16 lawBad ≠ some none :=
+  if_alone_never_rejects _ 2 [] 16 _ lawBad 2 rfl rfl
+example : ∃ vc vt ve, (Go.validateFuel lawEnv 2 [14] (GoVal.ofJson (.str "xy")) 3).verdict = some vc ∧
+    (Go.validateFuel lawEnv 2 [14] (GoVal.ofJson (.str "xy")) 15).verdict = some vt ∧
+    (Go.validateFuel lawEnv 2 [14] (GoVal.ofJson (.str "xy")) 2).verdict = some ve ∧
+    (Go.validateFuel lawEnv 3 [] (GoVal.ofJson (.str "xy")) 14).verdict = some ((vc && vt) || (!vc && ve)) :=
+  if_then_else_verdict_go lawEnv lawEnv_wf lawEnv_store 2 [] (fun _ h => nomatch h) 14 _ (.str "xy") (by decide) 3 15 2
+    rfl rfl (by decide) (by decide) (by decide)
+
+/-- 6 -/
+example : (Go.validateFuel { lawEnv with st := lawStore.setIfInBounds 23 { enum := some [.str "x"], maxLength := some 3 } }
+      4 [] (GoVal.ofJson (.str "x")) 24).verdict = (Go.validateFuel lawEnv 4 [] (GoVal.ofJson (.str "x")) 24).verdict :=
+  const_enum_singleton_in_context_go lawEnv lawEnv_wf lawEnv_store 4 [] (fun _ h => nomatch h) 23 _ (.str "x") (by decide)
+    (.str "x") rfl rfl rfl 24 (by decide)
+example : (Go.validateFuel { lawEnv with st := (lawStore.setIfInBounds 21
+      { types := some ["string"], enum := some [.str "y", .str "x"], title := "t" }) } 4 [] (GoVal.ofJson (.str "y")) 24).verdict
+    = (Go.validateFuel lawEnv 4 [] (GoVal.ofJson (.str "y")) 24).verdict :=
+  enum_set_invariant_go lawEnv lawEnv_wf lawEnv_store 4 [] (fun _ h => nomatch h) 21 _ (.str "y") (by decide)
+    [.str "x", .str "y", .str "x"] [.str "y", .str "x"] rfl rfl
+    (by intro v; simp only [List.mem_cons, List.mem_nil_iff, or_false]; grind) 24 (by decide)
+example : (Go.validateFuel { lawEnv with st := (lawStore.setIfInBounds 21
+      { type := "string", enum := some [.str "x", .str "y", .str "x"], title := "t" }) } 4 [] (GoVal.ofJson (.str "y")) 24).verdict
+    = (Go.validateFuel lawEnv 4 [] (GoVal.ofJson (.str "y")) 24).verdict :=
+  type_singleton_go lawEnv lawEnv_wf lawEnv_store 4 [] (fun _ h => nomatch h) 21 _ (.str "y") (by decide) "string"
+    (by decide) rfl rfl rfl 24 (by decide)
+
+/-- 7 -/
+example (e e1 e2 : Spec.Ev) (h : Spec.evalFuel (specEnvOf lawEnv) 3 [] 25 lawGood = some (some e))
+    (h1 : Spec.evalFuel (specEnvOf lawEnv) 3 [] 26 lawGood = some (some e1))
+    (h2 : Spec.evalFuel (specEnvOf lawEnv) 3 [] 27 lawGood = some (some e2)) :
+    (∀ k, k ∈ e.props ↔ k ∈ e1.props ∨ k ∈ e2.props) ∧ (∀ i, i ∈ e.items ↔ i ∈ e1.items ∨ i ∈ e2.items) :=
+  adjacent_keywords_evaluated (specEnvOf lawEnv) 2 [] 25 _ lawGood 26 27 _ _ lawSel rfl rfl rfl rfl rfl ⟨rfl, rfl⟩ rfl rfl
+    (lawScope 26 25 (by decide) (by decide)) (lawScope 27 25 (by decide) (by decide)) e e1 e2 h h1 h2
+example : ∃ b1 b2, (Go.validateFuel lawEnv 3 [28] (GoVal.ofJson lawBad) 26).verdict = some b1 ∧
+    (Go.validateFuel lawEnv 3 [28] (GoVal.ofJson lawBad) 27).verdict = some b2 ∧
+    (Go.validateFuel lawEnv 4 [] (GoVal.ofJson lawBad) 28).verdict = some (b1 && b2) :=
+  allOf_pair_go lawEnv lawEnv_wf lawEnv_store 3 [] (fun _ h => nomatch h) 28 _ lawBad (by decide) 26 27 rfl rfl (by decide)
+    (by decide)
+
+/-- the scope: `lawEnv` declares no dynamic anchor -/
+theorem lawEnv_no_dynamic : ∀ r name, (specEnvOf lawEnv).dynDecl r name = none := by
+  intro r name
+  show (lawEnv.info? r).bind _ = none
+  cases h : lawEnv.info? r with
+  | none => rfl
+  | some i =>
+    have hm : (r, i) ∈ lawEnv.infos := lookupNat_mem h
+    have ha : i.anchors = [] := by
+      simp only [lawEnv, List.mem_map] at hm
+      obtain ⟨x, _, hx⟩ := hm
+      cases hx; rfl
+    simp [ha]
+
+example : Spec.evalFuel (specEnvOf lawEnv) 3 [7, 1] 2 lawGood = Spec.evalFuel (specEnvOf lawEnv) 3 [] 2 lawGood :=
+  scope_irrelevant (specEnvOf lawEnv) 3 [7, 1] 2 lawGood lawEnv_no_dynamic []
+example : Spec.evalFuel (specEnvOf lawEnv) 3 ([7] ++ [4]) 2 lawGood = Spec.evalFuel (specEnvOf lawEnv) 3 [7] 2 lawGood :=
+  scope_wrapper (specEnvOf lawEnv) 3 [7] 2 lawGood 4 rfl
+
+/-- 9: the `$ref` half of node 37 (`Laws.pick` of the group `ref`) is the target, whatever the recursive calls -/
+example (rec : Spec.Rec) :
+    Inv.specBody (specEnvOf lawEnv) rec [] 37 lawGood (Laws.pick (fun g => g == .ref) (lawStore.getD 37 {})) = rec [37] 2 lawGood :=
+  ref_half_is_target (specEnvOf lawEnv) [] 37 _ lawGood rec 2 rfl (by decide) rfl
 
 end JSV.C01
